@@ -166,7 +166,7 @@ def run(ctx, prop):
     known_lines = []
     for kid, k in listed.items():
         if kid in known_seen:
-            known_lines.append(f"{kid}: {k['what']} [{known_seen[kid].strip()[:200]}]")
+            known_lines.append(f"{kid}: {k['what']} [{' '.join(known_seen[kid].split())[:200]}]")
         else:
             oracle_fail.append({"case": {"id": "known-finding-stale"}, "failures": [{"kind": "stale", "finding": kid}]})
     hist["kinds"] = dict(sorted(hist["kinds"].items()))
